@@ -149,6 +149,13 @@ def translate(
         except KeyError:
             log.exception("Problem translating %s to SymPy", model)
             return False
+        # flattening and generation can throw Exception in several places
+        except Exception:  # pylint: disable=broad-except
+            if log.level is logging.DEBUG:
+                log.exception("Problem translating %s to SymPy", model)
+            else:
+                log.error("Problem translating %s to SymPy", model)
+            return False
     else:
         raise NotImplementedError("Translator for {} not implemented".format(translator))
     return True
@@ -261,7 +268,8 @@ def main(argv: List[str]) -> int:
         if not errors and args.model:
             for model in args.model:
                 if args.target:
-                    translate(library_ast, model, "sympy", options, args.outdir)
+                    if not translate(library_ast, model, "sympy", options, args.outdir):
+                        errors += 1
                 elif args.model:
                     try:
                         _ = flatten_class(library_ast, model)
@@ -289,12 +297,12 @@ def main(argv: List[str]) -> int:
                         if model_dir:
                             # More than one found (ambiguous)
                             log.error("More than one Modelica file found for %s", model)
-                            errors += 1
                             model_dir = None
                             break
                         model_dir = path.parent
                 if not model_dir:
                     log.error("No unique Modelica file corresponding to model %s", model)
+                    errors += 1
                 else:
                     log.info("Generating model for %s ...", model)
                     try:
